@@ -175,9 +175,10 @@ def judge_full(case):
     tags = ["full-programs", "live-evaluator" if case["live"] else "fresh-evaluators"]
     ev = None
     keys = []
+    prev_text = None
     for item in case["programs"]:
         prog = item["prog"]
-        text = M.render(prog)
+        prev_text, text = (text if ev is not None else None), M.render(prog)
         tags += common.pre_noise(item)
         try:
             if ev is None or not case["live"]:
@@ -185,7 +186,10 @@ def judge_full(case):
             else:
                 if len(text) % 3 == 0:
                     common.refused_deploy(ev, text)
-                ev.recompile(text)
+                if len(text) % 2 and prev_text is not None:
+                    common.recycled_recompile(ev, prev_text, text)
+                else:
+                    ev.recompile(text)
         except Exception as e:
             viol.append("grammatical experiment does not compile: %s: %s | %s" % (type(e).__name__, e, text))
             common.reset_after_violation()
